@@ -174,6 +174,17 @@ def _allowed(n):
     return False
 
 
+def reader_new_is_trailer_read(ck, F, R):
+    """Reader::new is the trailer read and nothing else: no second validation step can accept or reject a file
+    (shared with C10-R3: an extra check written for the current trailer size is how V1 files stop opening)"""
+    rn = F.body(A("reader_new"))
+    cs = [callee_name(c) for s, c, t in rn.calls()]
+    rd = [s for s, c, t in calls(rn, A("meta_read"))]
+    other = [n for n in cs if n != A("meta_read") and not n.endswith("Result::<T, E>::map") and not n.endswith("Try>::branch") and not n.endswith("::from_residual")]
+    from .errflow import propagated
+    ck.ob(R, "reader-new-is-trailer-read", len(rd) == 1 and not other and not rn.loops() and propagated(F, rn, rd[0]) and is_arg(rn.arg_exprs(rd[0])[0], "reader"), f"Reader::new = Metadata::read_from(&mut reader) with its error propagated and nothing else ({cs})", rn)
+
+
 def r3_accept_table(ck, F):
     R = "C13-R3"
     fm = anchors()["format"]
@@ -236,12 +247,7 @@ def r3_accept_table(ck, F):
     oks = [x for x in exits if x[0] == "ok"]
     ck.floor(R, "Ok exits of read_from", len(oks), 1, F.config)
     # Reader::new adds nothing
-    rn = F.body(A("reader_new"))
-    cs = [callee_name(c) for s, c, t in rn.calls()]
-    rd = [s for s, c, t in calls(rn, A("meta_read"))]
-    other = [n for n in cs if n != A("meta_read") and not n.endswith("Result::<T, E>::map") and not n.endswith("Try>::branch") and not n.endswith("::from_residual")]
-    from .errflow import propagated
-    ck.ob(R, "reader-new-is-trailer-read", len(rd) == 1 and not other and not rn.loops() and propagated(F, rn, rd[0]) and is_arg(rn.arg_exprs(rd[0])[0], "reader"), f"Reader::new = Metadata::read_from(&mut reader) with its error propagated and nothing else ({cs})", rn)
+    reader_new_is_trailer_read(ck, F, R)
     # every decision in read_from is about the magic just read, the version it denotes or the codec id: nothing
     # else (a length, another byte, a flag) can make a trailer accepted or rejected
     mread = [s for s, c, t in b.calls() if c and c["path"].endswith("read_u32")]
